@@ -2,17 +2,23 @@
   C08 — Syntax trees stay structurally consistent under any sequence of edits.
   Only property theorems, non-vacuity examples and witnesses live here (model: Model/Tree.lean, lemmas: Proofs/Tree.lean).
 
-  Modelled: `Expression.set` (every index branch), `append`, `replace`, `pop`, `_set_parent`, the invalidation loop with
-  its early exit, `__hash__` / `__eq__`, construction.  The invariant `Inv` is over the WHOLE heap (attached trees,
-  detached sub-trees and garbage alike) in local form; the API precondition `Adm` is that an inserted node is not
-  currently stored anywhere (fresh, copied or popped — what the builders guarantee with copy=True) and that a node
-  being replaced is attached where its own pointers say.  All theorems are partial-correctness statements
-  ("if the operation returns a heap"): `none` covers fuel exhaustion, Python exceptions and the one unmodelled path.
-  NOT modelled here: `transform`, `replace_children`, the optimizer rules, builders, the "replace a node by its own
-  descendant" idiom (`Adm` excludes it) — these are covered by the invariant checker on the real code only.
+  Modelled: `Expression.set` (every index branch, incl. the removal `set(k, None, i)` with its sibling renumbering and the
+  negative-index variant), `append`, `replace`, `pop`, `_set_parent`, the invalidation loop with its early exit,
+  `__hash__` / `__eq__`, construction, the iterative `__deepcopy__` / `copy()`, `transform(fun, copy)` and
+  `replace_children` (parametric in the user function), the simplifier's pointer repair loop.
+  The invariant `Inv` is over the WHOLE heap (attached trees, detached sub-trees and garbage alike) in local form; the API
+  precondition `Adm` is that an inserted node is not currently stored anywhere (fresh, copied or popped — what the
+  builders guarantee with copy=True), that a node being replaced is attached where its own pointers say, and that a copy
+  goes into unused cells.  All theorems are partial-correctness statements ("if the operation returns a heap"): `none`
+  covers fuel exhaustion, Python exceptions and the one unmodelled path.
+  NOT modelled here: the optimizer rules, builders, `comments / _type / _meta`; the "replace a node by its own descendant"
+  idiom is outside `Adm` (witness `replace_by_own_child_leaves_husk`) — covered by the root-relative invariant checker on
+  the real code only.
 -/
-import SqlglotModel.Proofs.Tree
+import SqlglotModel.Proofs.TreeRun
 import SqlglotModel.Proofs.TreeNorm
+import SqlglotModel.Proofs.TreeWalk
+import SqlglotModel.Proofs.TreeRepair
 import SqlglotModel.Generated.C08
 
 namespace SqlglotModel.Properties.C08
@@ -58,6 +64,36 @@ theorem inv_reachable [DecidableEq H] (F : HashFns H) (fuel : Nat) (ops : List O
 theorem inv_reachable_from_empty [DecidableEq H] (F : HashFns H) (fuel : Nat) (ops : List Op) (h' : Heap H)
     (ha : AdmRun F fuel empty ops) (he : run F fuel empty ops = some h') : Inv F h' :=
   inv_run F ops (inv_empty F) ha he
+
+/-- `copy()` — the iterative `__deepcopy__` — keeps the invariant: in particular the `_hash` values it carries over to the
+    copies are the hashes of the copies (sound because exactly the nodes on which the loop performs no `set`/`append`
+    keep them, and those have identical scalar args); the copy lives in the cells from `base` on, which stay unused
+    above the returned counter. -/
+theorem inv_copy (F : HashFns H) (fuel : Nat) (h h' : Heap H) (n c : Id) (base nx : Nat) (hI : Inv F h)
+    (hf : FreshFrom h base) (hn : base > n) (he : opDeepcopy fuel h n base = some (h', nx, c)) :
+    Inv F h' ∧ FreshFrom h' nx :=
+  let r := deepcopy_spec hI hf hn he
+  ⟨r.1, r.2.1⟩
+
+/-- `transform(fun, copy=False)`, for any user function whose calls keep the invariant and hand back either the node
+    itself or an unattached node / list (`TransformAdm`, stated along the run) -/
+theorem inv_transform (F : HashFns H) (fuel : Nat) (fn : UserFun H) (h h' : Heap H) (nx nx' : Nat) (root : Id)
+    (r : Value) (hI : Inv F h) (ha : TransformAdm F fuel fn h nx root)
+    (he : opTransform fuel fn h nx root = some (h', nx', r)) : Inv F h' := inv_opTransform F hI ha he
+
+/-- `replace_children(self, fun)`: every user-function call keeps the invariant, and what is written back over each
+    argument consists of unattached nodes or of nodes already living in that argument, without repetition (`RcAdm`) -/
+theorem inv_replace_children (F : HashFns H) (fuel : Nat) (fn : UserFun H) (self : Id) (h h' : Heap H) (nx nx' : Nat)
+    (hI : Inv F h) (ha : RcAdm F fuel fn self h nx (h self).args)
+    (he : opReplaceChildren fuel fn h nx self = some (h', nx')) : Inv F h' := inv_opReplaceChildren F hI ha he
+
+/-- the simplifier's manual pointer repair (`for k, v in tuple(original.args.items()): … original._set_parent(k, v)`):
+    from a state where only the back pointers of `self`'s own children may be stale, it restores the whole invariant,
+    and dropping `None` args without invalidating any hash is sound -/
+theorem inv_simplify_repair (F : HashFns H) (h : Heap H) (self : Id)
+    (hl : ∀ p k i c, p ≠ self → Stored h p k i c → ptrs (h c) = (some p, some k, i))
+    (hown : ∀ k i c, Stored h self k i c → ∀ p k' i', Stored h p k' i' c → p = self ∧ k' = k ∧ i' = i)
+    (hc : Cache F h) (hk : Keys h) : Inv F (simplifyRepair h self) := inv_simplifyRepair F hl hown hc hk
 
 /-- no node is stored in two places -/
 theorem no_node_stored_twice (F : HashFns H) (h : Heap H) (hI : Inv F h) (p p' : Id) (k k' : String)
@@ -163,6 +199,10 @@ theorem generated_structure_ok :
     SqlglotModel.Generated.C08.appendInvalidatesUpParents = true ∧
     SqlglotModel.Generated.C08.replaceClearsPointers = true ∧
     SqlglotModel.Generated.C08.eqIsHashEquality = true ∧
+    SqlglotModel.Generated.C08.transformWalkShape = true ∧
+    SqlglotModel.Generated.C08.deepcopyLoopShape = true ∧
+    SqlglotModel.Generated.C08.replaceChildrenShape = true ∧
+    SqlglotModel.Generated.C08.simplifyRepairShape = true ∧
     SqlglotModel.Generated.C08.rawClasses = ["identifier", "literal"] := by decide +kernel
 
 /-! ### non-vacuity: a concrete admissible history (And(this=Column, expression=Literal); hash; edit the grandchild) -/
@@ -189,6 +229,15 @@ def staleHeap : Heap HT :=
 theorem closure_needed :
     ((opSet 4 staleHeap 1 "this" (.leaf (.str "z")) none true).map (fun h => (h 0).hash)) =
       some (some (HT.init "stale")) := by decide +kernel
+
+/-- non-vacuity of `inv_transform` / `inv_replace_children` / `inv_copy`: the runs exist in the model (the driver's user
+    functions on the demo tree) -/
+example : ((run freeHash 8 empty (demoOps.take 9)).bind (fun h => opTransform 8 (builtinFun 8 "wrap") h 4 0)).isSome = true := by
+  decide +kernel
+example : ((run freeHash 8 empty (demoOps.take 9)).bind (fun h => opReplaceChildren 8 (builtinFun 8 "lit") h 4 0)).isSome = true := by
+  decide +kernel
+example : ((run freeHash 8 empty (demoOps.take 9)).bind (fun h => opDeepcopy 8 h 0 4)).map (fun r => (r.2.1, r.2.2)) =
+    some (8, 4) := by decide +kernel
 
 /-! ### negative list indexes: `set(k, None, index=-j)`
 
